@@ -70,16 +70,16 @@ theorem rejects_call_arity (P : ProgCtx) (Γ : Env) (ln : Ln) (f : Expr) (args :
   P.plug_error Γ _ _ hreach (tc_call_arity Γ ln f args cf cs ps rc r hf hct ha hlen)
 
 /-- call with an argument of a kind the parameter does not accept (`Accepts`: numeric kinds
-convert, enum → int, otherwise the same type).  The diagnostic is at the call or at one of the
-arguments.  PARTIAL: the parameter types are first-order (no function type inside a function
-type); see `rejects_call_kind_counterexample`. -/
-theorem rejects_call_kind_partial (P : ProgCtx) (Γ : Env) (ln : Ln) (f : Expr) (args : ExprList)
+convert, enum → int, otherwise the same type — function types compared through every level).
+The diagnostic is at the call or at one of the arguments.  Full strength since the repair of
+`param_cmp` (186dfd9); before it, it needed first-order parameter types. -/
+theorem rejects_call_kind (P : ProgCtx) (Γ : Env) (ln : Ln) (f : Expr) (args : ExprList)
     (cf : Comb) (cs : List (Ln × Comb)) (ps : TyList) (rc : PCst) (r : Ty)
     (hreach : P.holeEnv = .ok Γ)
     (hf : tc Γ f = .ok cf) (hct : cf.ct = .val (.func ps rc r)) (ha : tcArgs Γ args = .ok cs)
-    (hfo : allFirstOrder ps.toList = true) (hbad : SomeArgRejected ps.toList cs) :
+    (hbad : SomeArgRejected ps.toList cs) :
     ∃ d, check (P.plug (.call ln f args)) = .error d ∧ (d.line = ln ∨ ∃ a ∈ cs, d.line = a.1) := by
-  obtain ⟨d, hd, hl⟩ := tc_call_kind Γ ln f args cf cs ps rc r hf hct ha hfo hbad
+  obtain ⟨d, hd, hl⟩ := tc_call_kind Γ ln f args cf cs ps rc r hf hct ha hbad
   exact ⟨d, P.plug_error Γ _ _ hreach hd, hl⟩
 
 /-- `(int) -> r` -/
@@ -89,12 +89,7 @@ def cexParam : Ty := .func (.cons .const (cexInner .int) .nil) .const .int
 /-- argument type `((int) -> string) -> int` -/
 def cexArg : Ty := .func (.cons .const (cexInner .string) .nil) .const .int
 
-/-- the excluded point, as `param_cmp` is written in the pinned tree: a parameter of type
-`((int) -> int) -> int` accepts an argument of type `((int) -> string) -> int`
-(`func_cmp(one.params, one.ret, two.params, one.ret)`: the inner result is never compared) -/
-theorem rejects_call_kind_counterexample :
-    paramExprCmp true .const cexParam 1 ⟨.val cexArg, .temp⟩ = .ok ∧ ¬ Accepts cexParam (.val cexArg) := by
-  refine ⟨rfl, ?_⟩
+theorem cexArg_not_accepted : ¬ Accepts cexParam (.val cexArg) := by
   intro h
   cases h with
   | num _ _ hp _ => simp [isNum, cexParam] at hp
@@ -103,6 +98,17 @@ theorem rejects_call_kind_counterexample :
     | cons _ _ _ _ _ ht _ =>
       cases ht with
       | func _ _ _ _ _ _ _ hr => cases hr
+
+/-- HISTORY — the point that `rejects_call_kind` had to exclude in the pinned tree: the pinned
+`param_cmp` (`paramCmpPinned`, `func_cmp(one.params, one.ret, two.params, one.ret)`) said yes
+to `(int) -> int` against `(int) -> string` whenever it compared two function types, so a
+parameter `h((int) -> int) -> int` took an argument `((int) -> string) -> int`; the repaired
+comparison (the model's `paramExprCmp`) rejects it, silently, i.e. with the diagnostic at the call -/
+theorem rejects_call_kind_pinned_counterexample :
+    paramCmpPinned true .const (cexInner .int) .const (cexInner .string) = true ∧
+    ¬ Accepts cexParam (.val cexArg) ∧
+    paramExprCmp true .const cexParam 1 ⟨.val cexArg, .temp⟩ = .fail none :=
+  ⟨rfl, cexArg_not_accepted, rfl⟩
 
 /-- use of an undefined name -/
 theorem rejects_undefined_name (P : ProgCtx) (Γ : Env) (ln : Ln) (x : String)
@@ -158,14 +164,14 @@ theorem rejects_nonbool_condition_anywhere (P : ProgCtx) (ln l : Ln) (b : Expr) 
 
 /-- a function whose body yields a kind of value its declared result does not accept; the
 diagnostic is at the function or at its result expression.  For a function at top level, as
-an item of a block, or a literal, anywhere (`FuncCtx`).  PARTIAL: first-order result type. -/
-theorem rejects_result_kind_partial (C : FuncCtx) (Γf : Env) (s : Sig) (ln : Ln) (name : String)
+an item of a block, or a literal, anywhere (`FuncCtx`). -/
+theorem rejects_result_kind (C : FuncCtx) (Γf : Env) (s : Sig) (ln : Ln) (name : String)
     (ps : List Param) (rc : PCst) (rty : Ty) (body : Expr) (excs : ExcList) (c : Comb)
     (hreach : C.env (.mk ln name ps rc rty body excs) = .ok (Γf, s))
     (hx : tcExcs Γf s excs = .ok ()) (hb : tc Γf body = .ok c)
-    (hfo : firstOrder s.r = true) (hbad : ¬ Accepts s.r c.ct) :
+    (hbad : ¬ Accepts s.r c.ct) :
     ∃ d, check (C.plug (.mk ln name ps rc rty body excs)) = .error d ∧ (d.line = ln ∨ d.line = body.ln) := by
-  obtain ⟨d, hd, hl⟩ := tcRest_result_kind Γf s ln name ps rc rty body excs c hx hb hfo hbad
+  obtain ⟨d, hd, hl⟩ := tcRest_result_kind Γf s ln name ps rc rty body excs c hx hb hbad
   exact ⟨d, C.plug_error _ Γf s d hreach hd, hl⟩
 
 /-- a `match` over an enum that has no `else` and leaves an enumerator without a guard.
@@ -287,8 +293,8 @@ example : check (exP.plug (.call 13 (.id 13 "g") (.cons exOne (.cons exOne .nil)
 -- g("s"): the diagnostic is at the argument (line 14)
 example : ∃ d, check (exP.plug (.call 13 (.id 13 "g") (.cons (.litString 14) .nil))) = .error d ∧
     (d.line = 13 ∨ ∃ a ∈ [(14, (⟨.val .string, .temp⟩ : Comb))], d.line = a.1) :=
-  rejects_call_kind_partial exP exΓ 13 _ _ ⟨.val (.func (.cons .const .int .nil) .const .int), .temp⟩
-    [(14, ⟨.val .string, .temp⟩)] _ _ _ exP_reaches rfl rfl rfl rfl
+  rejects_call_kind exP exΓ 13 _ _ ⟨.val (.func (.cons .const .int .nil) .const .int), .temp⟩
+    [(14, ⟨.val .string, .temp⟩)] _ _ _ exP_reaches rfl rfl rfl
     (.inl (by intro h; cases h with | num _ _ _ hb => simp [isNum] at hb))
 example : check (exP.plug (.call 13 (.id 13 "g") (.cons (.litString 14) .nil))) = .error ⟨14, .paramKind⟩ := rfl
 example : check (exP.plug (.id 13 "nosuch")) = .error ⟨13, .undefId⟩ :=
@@ -314,10 +320,10 @@ example : check (exP.plug (.match_ 13 (.id 13 "e") (.cons (.item 14 "E" "A" exOn
 example : ∃ d, check ((FuncCtx.nested exP 13 .nil .nil .nil (.cons (.expr exOne) .nil)).plug
       (.mk 14 "bad" [] .dflt .int (.seq 15 (.cons (.expr (.litString 15)) .nil)) .nil)) = .error d ∧
     (d.line = 14 ∨ d.line = 15) :=
-  rejects_result_kind_partial (.nested exP 13 .nil .nil .nil (.cons (.expr exOne) .nil))
+  rejects_result_kind (.nested exP 13 .nil .nil .nil (.cons (.expr exOne) .nil))
     (funcEnv (match (exΓ.push).add 14 "bad" (.func .nil .const .int) with | .ok Γ => Γ | .error _ => default)
       "bad" ⟨[], .const, .int⟩) ⟨[], .const, .int⟩
-    14 "bad" [] .dflt .int _ .nil ⟨.val .string, .temp⟩ rfl rfl rfl rfl
+    14 "bad" [] .dflt .int _ .nil ⟨.val .string, .temp⟩ rfl rfl rfl
     (by intro h; cases h with | num _ _ _ hb => simp [isNum] at hb)
 -- a function literal with `catch (no_such_exception)` at the hole
 example : check ((FuncCtx.lit exP).plug
@@ -360,5 +366,19 @@ example : ∃ t, (⟨.val .bool, .temp⟩ : Comb).ct = .val t ∧
     HasType exScalarΓ (.bin 1 .lt (.bin 1 .add (.id 1 "n") (.litLong 1)) (.litFloat 1)) t :=
   check_sound_partial exScalarΓ _ _ exScalarΓ_scalar
     (.bin _ _ _ _ (.bin _ _ _ _ (.id 1 "n") (.litLong 1)) (.litFloat 1)) rfl
+
+
+/-- the former known finding as a whole program: `apply(h((int) -> int) -> int)` called with
+`k(g(int) -> string)` — rejected at the call (line 3) since 186dfd9 -/
+def exSecondOrder : Prog :=
+  let fn (r : Ty) : Ty := .func (.cons .dflt .int .nil) .dflt r
+  ⟨[], .cons (.mk 1 "apply" [⟨1, "h", .dflt, .func (.cons .dflt (fn .int) .nil) .dflt .int⟩] .dflt .int
+          (.seq 1 (.cons (.expr (.litInt 1)) .nil)) .nil)
+       (.cons (.mk 2 "k" [⟨2, "g", .dflt, fn .string⟩] .dflt .int
+          (.seq 2 (.cons (.expr (.litInt 2)) .nil)) .nil)
+       (.cons (.mk 3 "main" [] .dflt .int
+          (.seq 3 (.cons (.expr (.call 3 (.id 3 "apply") (.cons (.id 3 "k") .nil))) .nil)) .nil) .nil))⟩
+
+example : check exSecondOrder = .error ⟨3, .callMismatch⟩ := rfl
 
 end Never.C06
